@@ -11,9 +11,11 @@ import (
 	"strconv"
 	"strings"
 	"sync/atomic"
+	"time"
 
 	"github.com/pkg/errors"
 	"github.com/tikv/client-go/v2/config"
+	"github.com/tikv/client-go/v2/internal/client"
 	"google.golang.org/grpc/status"
 )
 
@@ -426,7 +428,10 @@ func errClass(err error) string {
 	msg := err.Error()
 	switch {
 	case cause == context.DeadlineExceeded:
-		return "timeout"
+		if strings.Contains(msg, "wait recvLoop timeout") || strings.Contains(msg, "wait sendLoop") {
+			return "timeout" // the call's own time-out (sendBatchRequest)
+		}
+		return "failure" // waitConnReady gave up: the connection did not become ready within the dial budget
 	case cause == context.Canceled:
 		return "canceled"
 	case strings.Contains(msg, "batchConn closed"), strings.Contains(msg, "batch client closed"), strings.Contains(msg, "rpcClient is closed"):
@@ -444,7 +449,7 @@ func eventKind(e string) string {
 	if i := strings.IndexByte(e, ':'); i >= 0 {
 		return e[:i]
 	}
-	if e == "X" || e == "XA" {
+	if e == "X" || e == "XA" || e == "final-close" {
 		return e
 	}
 	k := e[:1]
@@ -480,9 +485,18 @@ func (w *world) check(before, after *obs, e string, ex expect) []viol {
 		newly := b.Returns == 0 && a.Returns >= 1
 		if must && !newly && a.Returns == 0 {
 			add("stuck/"+tag+"/after-"+kind+ex.shape, fmt.Sprintf("caller %d is still blocked after event %s (%s)", i, e, ex.reason))
+			c.tainted = true
 			continue
 		}
 		if !newly {
+			continue
+		}
+		if c.tainted && !must {
+			// The call was already reported as wrongly blocked; when and how it is finally released by an
+			// unrelated event is a consequence of that finding, not a new one (its payload is still checked).
+			if errClass(a.Err) == "ok" && a.Value != c.payload() {
+				add("misdelivery/"+tag+"/after-"+kind, fmt.Sprintf("caller %d (payload %q) got the response %q (event %s)", i, c.payload(), a.Value, e))
+			}
 			continue
 		}
 		cls := errClass(a.Err)
@@ -542,19 +556,63 @@ func onlyStuck(vs []viol) bool {
 	return true
 }
 
+// diagnoseNotQuiet: two reasons for not getting quiet are facts whatever the timing, and are
+// reported as violations: a loop of the client that panics and restarts for ever (its recovered
+// panics are in the log), and a send loop that spins through getClientAndSend without sending (the
+// client's own "no available connection" counter, which moves at most once per batch in a sane run,
+// advanced thousands of times during this single wait). Anything else is inconclusive (false).
+func diagnoseNotQuiet(t *trace, e string, noAvailBefore float64) bool {
+	n0 := len(t.Viol)
+	blockedNote := ""
+	if t.w != nil {
+		o := t.w.observe()
+		var bl []string
+		for i := range o.Callers {
+			if o.inflight(i) {
+				tag := "sync"
+				if t.w.callers[i].variant == vAsync {
+					tag = "async"
+				}
+				bl = append(bl, fmt.Sprintf("caller %d (%s)", i, tag))
+			}
+		}
+		if len(bl) > 0 {
+			blockedNote = "never completed: " + strings.Join(bl, ", ") + "; "
+		}
+	}
+	if n, msg := panicLogsSince(t.logMark); n > 0 {
+		t.logMark += n
+		t.Viol = append(t.Viol, viol{Key: "panic/client-goroutine/after-" + eventKind(e), What: fmt.Sprintf("the client recovered a panic after event %s: %s", e, msg)})
+	} else if spins := noAvailCount() - noAvailBefore; spinDetected {
+		t.Viol = append(t.Viol, viol{Key: "livelock/send-loop/after-" + eventKind(e), What: blockedNote + fmt.Sprintf(
+			"after event %s the batch send loop spins for ever: it is the only goroutine that is not blocked and went through getClientAndSend without finding a usable connection %.0f times during one wait", e, spins)})
+	}
+	for i := n0; i < len(t.Viol); i++ {
+		if e != "final-close" {
+			t.Viol[i].At = len(t.Events)
+		}
+	}
+	return len(t.Viol) > n0
+}
+
 // ---------- one execution ----------
 
 type trace struct {
-	Events       []string
-	Enabled      [][]string // Enabled[k] = events enabled before Events[k]; one more entry for the final state
-	Viol         []viol
-	Inconclusive string
-	Diverged     bool
-	States       []uint64
-	Outcome      string
-	MaxInflight  int
-	MaxBatch     int
-	Steps        int
+	Events          []string
+	Enabled         [][]string // Enabled[k] = events enabled before Events[k]; one more entry for the final state
+	Viol            []viol
+	Inconclusive    string
+	Diverged        bool
+	States          []uint64
+	Outcome         string
+	MaxInflight     int
+	MaxBatch        int
+	InflightEntries int
+	InflightSent    int64
+	logMark         int
+	TeardownFailed  bool
+	w               *world
+	Steps           int
 }
 
 var stateDump map[string]struct{} // diagnostics (VERIF_C18_DUMPSTATES)
@@ -605,22 +663,29 @@ func outcomeOf(w *world, o *obs) string {
 func runOne(cfg Config, prefix []string, stopAtPrefix bool) *trace {
 	t := &trace{}
 	applyConfig(cfg)
-	logMark := panicLogCount()
+	t.logMark = panicLogCount()
 	w := newWorld(cfg)
+	t.w = w
 	defer func() {
-		if !w.teardown() && t.Inconclusive == "" {
-			t.Inconclusive = "no quiescence during teardown"
+		t.w = nil
+		if !w.teardown() {
+			if t.Inconclusive == "" && len(t.Viol) == 0 {
+				t.Inconclusive = fmt.Sprintf("no quiescence during teardown: busy: %s", busyGoroutines())
+			}
+			t.TeardownFailed = true
 		}
 	}()
 	if !quiesce() {
-		t.Inconclusive = "no quiescence after setup"
+		t.Inconclusive = "no quiescence after setup: busy: " + busyGoroutines()
+		poisoned = true
+		poisonedWhy = "not quiet after the setup of a fresh world: " + busyGoroutines()
 		return t
 	}
 	o := w.observe()
 	budget := cfg.MaxF
 	checkPanics := func(e string) {
-		if n, msg := panicLogsSince(logMark); n > 0 {
-			logMark += n
+		if n, msg := panicLogsSince(t.logMark); n > 0 {
+			t.logMark += n
 			t.Viol = append(t.Viol, viol{Key: "panic/client-goroutine/after-" + eventKind(e), What: fmt.Sprintf("the client recovered a panic after event %s: %s", e, msg)})
 		}
 	}
@@ -648,6 +713,7 @@ func runOne(cfg Config, prefix []string, stopAtPrefix bool) *trace {
 			}
 			e = en[0]
 		}
+		noAvail := noAvailCount()
 		ex, err := w.perform(&o, e)
 		if err != nil {
 			t.Diverged = true
@@ -656,8 +722,10 @@ func runOne(cfg Config, prefix []string, stopAtPrefix bool) *trace {
 		}
 		t.Events = append(t.Events, e)
 		budget -= eventCost(e)
-		if !quiesce() {
-			t.Inconclusive = "no quiescence after event " + e
+		if !w.settle() {
+			if !diagnoseNotQuiet(t, e, noAvail) {
+				t.Inconclusive = "no quiescence after event " + eventKind(e) + ": busy: " + busyGoroutines()
+			}
 			return t
 		}
 		if w.tooSlow() {
@@ -696,15 +764,19 @@ func runOne(cfg Config, prefix []string, stopAtPrefix bool) *trace {
 		}
 	}
 	t.Outcome = outcomeOf(w, &o)
+	t.InflightEntries, t.InflightSent = client.VerifInflight(w.cli, storeAddr)
 	if stopAtPrefix {
 		return t
 	}
 	// epilogue: after Close no call stays blocked
 	if !w.closed {
+		noAvail := noAvailCount()
 		ex, err := w.perform(&o, "X")
 		if err == nil {
-			if !quiesce() {
-				t.Inconclusive = "no quiescence after the final Close"
+			if !w.settle() {
+				if !diagnoseNotQuiet(t, "final-close", noAvail) {
+					t.Inconclusive = "no quiescence after the final Close"
+				}
 				return t
 			}
 			if w.tooSlow() {
@@ -749,6 +821,9 @@ type subtreeResult struct {
 	Audits       int64               `json:"audits"`
 	Mismatch     int64               `json:"mismatch"`
 	Extra        map[string][]string `json:"extra,omitempty"`
+	WallMs       int64               `json:"wall_ms"`
+	SlowestMs    int64               `json:"slowest_ms"`
+	Slowest      []string            `json:"slowest,omitempty"`
 }
 
 type violHit struct {
@@ -775,6 +850,12 @@ func (r *subtreeResult) account(cfg Config, t *trace, states map[uint64]struct{}
 	if t.Inconclusive != "" {
 		k := t.Inconclusive
 		if i := strings.Index(k, ":"); i > 0 {
+			if r.Extra == nil {
+				r.Extra = map[string][]string{}
+			}
+			if len(r.Extra["inconclusive_details"]) < 5 {
+				r.Extra["inconclusive_details"] = append(r.Extra["inconclusive_details"], fmt.Sprintf("%s [events %v]", k, t.Events))
+			}
 			k = k[:i]
 		}
 		r.Inconclusive[k]++
@@ -833,21 +914,66 @@ func simpler(a, b []string) bool {
 }
 
 // runChecked runs one execution; a diverged or inconclusive one is retried (fresh world) twice.
+// A violation is believed only if the same event prefix violates the same rule again in each of
+// three further executions that audit every quiescence with a full stack snapshot; otherwise the
+// execution is inconclusive (an observation taken too early can therefore not become an alarm).
 func runChecked(cfg Config, prefix []string, stop bool) *trace {
 	var t *trace
 	for try := 0; try < 3; try++ {
 		t = runOne(cfg, prefix, stop)
-		if t.Inconclusive == "" {
-			return t
+		if t.Inconclusive == "" || poisoned {
+			break
+		}
+	}
+	if t.Inconclusive != "" || len(t.Viol) == 0 {
+		return t
+	}
+	saved := paranoid
+	paranoid = true
+	defer func() { paranoid = saved }()
+	seen := map[string]bool{}
+	for _, v := range t.Viol {
+		if seen[v.Key] {
+			continue
+		}
+		seen[v.Key] = true
+		pre, stopAt := t.Events, false
+		if v.At > 0 && v.At <= len(t.Events) {
+			pre, stopAt = t.Events[:v.At], true
+		}
+		for i := 0; i < 3; i++ {
+			var r *trace
+			for try := 0; try < 6; try++ { // a re-execution that is itself inconclusive (slow machine) says nothing: repeat it
+				r = runOne(cfg, pre, stopAt)
+				if r.Inconclusive == "" || len(r.Viol) > 0 || poisoned {
+					break
+				}
+			}
+			found := false
+			for _, rv := range r.Viol {
+				if rv.Key == v.Key {
+					found = true
+				}
+			}
+			if !found {
+				unconfirmed++
+				t.Viol = nil
+				t.Inconclusive = "violation not reproduced on re-execution: " + v.Key
+				return t
+			}
 		}
 	}
 	return t
 }
 
+var unconfirmed int64
+
 // exploreSubtree enumerates every execution that starts with prefix (stateless DFS: run the
 // prefix, continue with first choices, then branch on every alternative recorded on the way).
 func exploreSubtree(cfg Config, prefix []string, expired func() bool) *subtreeResult {
 	res := newSubtreeResult(prefix)
+	began := time.Now()
+	defer func() { res.WallMs = time.Since(began).Milliseconds() }()
 	states := map[uint64]struct{}{}
 	var rec func(p []string)
 	rec = func(p []string) {
@@ -855,7 +981,15 @@ func exploreSubtree(cfg Config, prefix []string, expired func() bool) *subtreeRe
 			res.Inconclusive["budget exhausted"]++
 			return
 		}
+		if poisoned {
+			res.Inconclusive["subtree skipped: a leftover goroutine of an earlier execution keeps running in this worker"]++
+			return
+		}
+		t0 := time.Now()
 		t := runChecked(cfg, p, false)
+		if d := time.Since(t0).Milliseconds(); d > res.SlowestMs {
+			res.SlowestMs, res.Slowest = d, append([]string{}, t.Events...)
+		}
 		res.account(cfg, t, states)
 		if t.Inconclusive != "" || !onlyStuck(t.Viol) {
 			return // the subtree below an inconclusive / unsafe execution is not explored (reported)
@@ -882,8 +1016,8 @@ func frontier(cfg Config, depth int) *subtreeResult {
 	states := map[uint64]struct{}{}
 	var rec func(p []string)
 	rec = func(p []string) {
-		if len(p) == depth {
-			res.Frontier = append(res.Frontier, p)
+		if len(p) == depth || poisoned {
+			res.Frontier = append(res.Frontier, p) // (a poisoned process hands the whole subtree to a fresh worker)
 			return
 		}
 		t := runChecked(cfg, p, true)
